@@ -20,12 +20,25 @@ DECLINED = [
 ]
 
 
+def counting_function(F, fn):
+    """fn if it increments the counts itself, else the one private helper only it runs that does (the walk split off)."""
+    def has(f):
+        return any(is_store(nd) and "subtreeCount" in repr(f.term(f.kids(nd["id"])[0])) for nd in f.nodes)
+    if has(fn):
+        return fn
+    from ..through import private_closure
+    hs = [F.functions[k] for k in private_closure(F, fn) if k != fn.key and k in F.functions]
+    hs = [h for h in hs if has(h) and not h.d.get("lambda") and h.name != "SwapNodes"]
+    return hs[0] if len(hs) == 1 else fn
+
+
 def capacity(F, S):
     out = []
-    fn = F.fn(AH + "::UpdateCodeCount", nparams=1)
-    out += r_atomic(F, S, fn)
+    fn0 = F.fn(AH + "::UpdateCodeCount", nparams=1)
+    out += r_atomic(F, S, fn0)
     eng = Engine(F, S)
-    eng.analyze(fn, frozenset())
+    eng.analyze(fn0, frozenset())
+    fn = counting_function(F, fn0)     # (facts at its stores are those of the context UpdateCodeCount calls it in)
     stores = sorted([nd for nd in fn.nodes if is_store(nd) and "subtreeCount" in repr(fn.term(fn.kids(nd["id"])[0]))], key=lambda n: n["id"])
     if not stores:
         # the counting may have been moved into a helper / lambda the function calls: then the refusal and the store travel
@@ -68,7 +81,7 @@ def root_counted(F, S):
     the walk ends on has had its count incremented since `cur` last changed. A must-dataflow over the CFG of one flag
     ("subtreeCount[cur] was incremented and cur has not been reassigned since"); it does not depend on the loop's form."""
     from ..flow import CFG
-    fn = F.fn(AH + "::UpdateCodeCount", nparams=1)
+    fn = counting_function(F, F.fn(AH + "::UpdateCodeCount", nparams=1))
     eng = Engine(F, S)
     ex = eng.analyze(fn, frozenset()) or frozenset()
     root = F.method_value(AH + "::GetRootNodeIndex", ("this",))
@@ -364,6 +377,28 @@ def units(F, S):
                         else:
                             out.append(bad("R-UNITS", inst, fn.loc(nd["id"]), fn.qn, req,
                                            "NodeIndex %s is initialised from %s: a symbol value used as a node position (valid only until the first swap)" % (d["n"], fmt_term(it))))
+        # ... or handed straight to a helper's node-position parameter (`Propagate(parentIndex[code + nodeCount])`)
+        for nd in fn.nodes:
+            if nd["k"] == "CXXMemberCallExpr" and "obj" in nd and fn.term(nd["obj"]) == ("this",):
+                for cal in F.callees(nd):
+                    for i, a in enumerate(nd.get("args", [])):
+                        if i >= len(cal.params):
+                            continue
+                        pp = cal.params[i]
+                        pv = ("var", pp["n"], pp["d"])
+                        is_pos = (pp.get("td") or "").endswith("NodeIndex") or (pp.get("iw") and any(
+                            b in (("mem", ("this",), "subtreeCount"), ("mem", ("this",), "linkOrData")) and ix == pv for (_n, b, ix, _e) in subscript_sites(cal)))
+                        it = fn.xterm(a)
+                        if not is_pos or not mentions(it, code):
+                            continue
+                        n += 1
+                        inst = "%s::%s#code-to-leaf:arg%d:%s" % (AH, name, i, cal.name)
+                        req = "the node index for a symbol is looked up through parentIndex[code + nodeCount] (the leaf that currently holds it)"
+                        if it in (want, want2):
+                            out.append(ok("R-UNITS", inst, fn.loc(nd["id"]), fn.qn, req, fmt_term(it)))
+                        else:
+                            out.append(bad("R-UNITS", inst, fn.loc(nd["id"]), fn.qn, req,
+                                           "%s receives %s as a node position: a symbol value used as a node position (valid only until the first swap)" % (cal.name, fmt_term(it))))
     if n < 2:
         raise AnalysisBroken("R-UNITS: expected a NodeIndex local initialised from the symbol in UpdateCodeCount and GetEncodedBitString")
     # the reverse direction: leaf -> symbol is linkOrData[i] - nodeCount
